@@ -15,19 +15,22 @@ MUTKINDS = '{"none", "flip", "drop", "dup", "move", "trunc"}'
 
 # ------------------------------------------------------------------ design level
 def design_level(ctx):
-    """TLC on the design: with the repaired choices every invariant holds; each choice of the code as found breaks one"""
+    """TLC on the design: the code's choices satisfy every invariant; the pre-fix choice (second heads file -> nil
+    dereference) breaks NoCrash; the stricter key import is allowed as well"""
     quick = ctx.tier == "quick"
     out = {}
     base = {"MaxAcct": "1" if quick else "2", "MaxSend": "1"}
-    variants = [("skip", "pair", True)]
+    variants = [("skip", "none", True)]
     if not quick:
-        variants += [("crash", "pair", False), ("skip", "none", False)]
+        variants += [("crash", "none", False), ("skip", "pair", True)]
     for dup, key, must in variants:
         r = ctx.tlc("ExportRestore", "MC_ExportRestore.cfg", name="mc_%s_%s" % (dup, key), allow_violation=True, workers=2 if quick else 4, timeout=1500,
                     consts=dict(base, DupHeads='"%s"' % dup, KeyCheck='"%s"' % key))
         out["DupHeads=%s KeyCheck=%s" % (dup, key)] = r.violated or "ok"
         if must and not r.ok:
-            raise vf.Infra("ExportRestore.tla (repaired choices) must satisfy its invariants: %s" % r.violated)
+            raise vf.Infra("ExportRestore.tla (choices of the code) must satisfy its invariants: %s" % r.violated)
+        if not must and r.ok:
+            raise vf.Infra("ExportRestore.tla: the pre-fix choice DupHeads=crash is expected to break NoCrash")
     ctx.extra["design_level"] = out
 
 
@@ -198,11 +201,8 @@ class Runner:
 
 # ------------------------------------------------------------------ conformance with the model's predictions (drift only)
 def conformance(ctx, scripts, blocks):
-    """every op / restore step: the model's prediction against the observed outcome.  Restores carry the prediction of
-    both pure Impl variants (code as found: DupHeads=crash KeyCheck=none; repaired: skip/pair); the tree is compared
-    with the variant it agrees with more often and the evidence says which one that is."""
-    cmp_, agree = 0, {"found": 0, "fixed": 0}
-    diffs = {"found": {}, "fixed": {}}
+    """every op / restore step: the model's prediction against the observed outcome (never a verdict)"""
+    cmp_, agree, diffs = 0, 0, {}
     for s in scripts:
         exp = None
         for st, ev in zip(s["steps"], blocks[s["id"]]):
@@ -211,30 +211,23 @@ def conformance(ctx, scripts, blocks):
             if ev.get("skip"):
                 continue
             if st["act"] == "op" and "ok" in ev:
-                want = {v: st["res"].get("ok") for v in agree}
-                got = ev["ok"]
+                want, got = st["res"].get("ok"), ev["ok"]
             elif st["act"] == "restore" and "out" in ev:
                 got = ev["out"]
                 if got == "ok":
                     got = "ok/" + ("same" if exp and ev.get("keys") == exp.get("keys") else "other")
-                want = {}
-                for v in agree:
-                    pr = st["res"].get(v) or st["res"]
-                    want[v] = pr.get("out") + (("/" + pr.get("keys", "?")) if pr.get("out") == "ok" else "")
+                want = st["res"].get("out") + (("/" + st["res"].get("keys", "?")) if st["res"].get("out") == "ok" else "")
             else:
                 continue
             cmp_ += 1
-            for v in agree:
-                if want[v] == got:
-                    agree[v] += 1
-                else:
-                    k = "%s %s: model %s, code %s" % (st["act"], sig_of(st) if st["act"] == "restore" else st["s"], want[v], got)
-                    diffs[v][k] = diffs[v].get(k, 0) + 1
-    best = "fixed" if agree["fixed"] >= agree["found"] else "found"
-    ctx.extra["conformance"] = {"steps_compared": cmp_, "agree_with_code_as_found_variant": agree["found"],
-                                "agree_with_repaired_variant": agree["fixed"], "tree_follows": best,
-                                "disagreements": dict(sorted(diffs[best].items(), key=lambda kv: -kv[1])[:12])}
-    for k, v in list(diffs[best].items())[:20]:
+            if want == got:
+                agree += 1
+            else:
+                k = "%s %s: model %s, code %s" % (st["act"], sig_of(st) if st["act"] == "restore" else st["s"], want, got)
+                diffs[k] = diffs.get(k, 0) + 1
+    ctx.extra["conformance"] = {"steps_compared": cmp_, "agree": agree,
+                                "disagreements": dict(sorted(diffs.items(), key=lambda kv: -kv[1])[:12])}
+    for k, v in list(diffs.items())[:20]:
         ctx.drift.append({"trace": "export", "info": {"what": k, "count": v}})
 
 
@@ -255,6 +248,9 @@ def clause_of(line, exp):
         return "not-rejected", "an archive with %s was not rejected: outcome %s" % (why, out)
     if exp is not None and fed == exp.get("files") and not line.get("used") and "noend" not in line and out != "ok":
         return "unmutated-fails", "the unmutated archive does not restore: outcome %s %s" % (out, line.get("err", ""))
+    key_damaged = any(f["t"] == "key" and not f.get("same") for f in fed)
+    if out == "ok" and key_damaged:
+        return "other", "rejected line"
     if out == "ok" and exp is not None and line.get("keys") != exp.get("keys"):
         return "keys-differ", "the restore reports success but the node holds other account keys: %s instead of %s" % (line.get("keys"), exp.get("keys"))
     if out == "ok" and exp is not None:
@@ -349,4 +345,4 @@ def run(ctx, replay=None):
     return ctx.finish(level="model_checking",
                       rule="seeded -simulate walks of GenExportRestore (history, export at a TLC-chosen point, TLC-chosen file-level mutations, optionally more history and a second export) replayed on a real service and real restores; evaluations = exports + restores judged by the monitor; non-trivial script = contact or multi-member group open, at least one message/payload, at least two mutated restores",
                       exhaustive=False,
-                      technique="TLA+ spec ExportRestore.tla model-checked by TLC (archive, every single file-level mutation, handler rules; repaired and as-found Impl choices); TLC-generated behaviours replayed on the real service/export stream and RestoreAccountExport; recorded traces checked by TLC against the property monitor MonExportRestore.tla (verdict); model predictions compared step by step (drift)")
+                      technique="TLA+ spec ExportRestore.tla model-checked by TLC (archive, every single file-level mutation, handler rules; the code's Impl choices and the pre-fix one); TLC-generated behaviours replayed on the real service/export stream and RestoreAccountExport; recorded traces checked by TLC against the property monitor MonExportRestore.tla (verdict); model predictions compared step by step (drift)")
